@@ -738,18 +738,22 @@ func (e *Engine) Open() error {
 
 	e.index.SetFieldSet(fields)
 
-	if e.WALEnabled {
-		if err := e.WAL.Open(); err != nil {
-			return err
-		}
-	}
-
 	if err := e.FileStore.Open(); err != nil {
 		return err
 	}
 
 	if e.WALEnabled {
+		// Replay the WAL before opening it for writing: replaying truncates a
+		// corrupt (torn) tail off the newest segment, and the segment writer
+		// must be positioned at the end of what is left. Opened the other way
+		// round, the writer keeps its offset beyond the new end of file, later
+		// acknowledged writes land behind a hole, and the next restart
+		// truncates them away as corruption.
 		if err := e.reloadCache(); err != nil {
+			return err
+		}
+
+		if err := e.WAL.Open(); err != nil {
 			return err
 		}
 	}
